@@ -190,11 +190,7 @@ func (cs *concurrentStrategy) Inc(APIStream public_types.APIStreamI) error {
 		}
 	}
 
-	cs.setReqStatus(reqID, reqAllowed)
-
-	cs.mutex.Lock()
-	cs.allowedReq[reqID].member = memberKey
-	cs.mutex.Unlock()
+	cs.setReqStatus(reqID, reqAllowed, memberKey)
 	return nil
 }
 
@@ -297,11 +293,12 @@ func (cs *concurrentStrategy) buildProcName(processor string) string {
 	return fmt.Sprintf("%s_%s", strings.ReplaceAll(cs.quotaID, ".", ""), processor)
 }
 
-func (cs *concurrentStrategy) setReqStatus(reqID string, reqStatus incResult) {
+func (cs *concurrentStrategy) setReqStatus(reqID string, reqStatus incResult, member string) {
 	cs.mutex.Lock()
 	defer cs.mutex.Unlock()
 	cs.allowedReq[reqID] = &allowedReqStatus{
 		status: reqStatus,
+		member: member,
 	}
 }
 
